@@ -7,8 +7,22 @@ from . import rules_stale as stale
 from . import rules_must as must
 from . import rules_config as cfg
 from . import rules_admit as adm
+from . import rules_safety as safe
+from . import rules_type as ty
 
 PROPERTIES = {
+    'C08': {
+        'rules': [safe.rule_inv_arith, safe.rule_inv_panic, safe.rule_inv_unsafe, safe.rule_ptr_guarded_call, safe.rule_auth_node_free, safe.rule_deque_shape,
+                  stale.rule_stale_removal, stale.rule_admit_live, must.rule_wo_node, must.rule_unlink_both, ty.rule_type_witnesses],
+        'explanation': 'Discipline, not absence of every bad state: complete inventories of arithmetic asserts, panic-capable calls and unsafe code, each '
+                       'discharged automatically or by one reasoned table line; unsafe impl bounds; every unsafe list operation is membership-'
+                       'guarded; nodes are freed only by their owner roles, never popped in the concurrent cache; maintenance removes by identity '
+                       'only and never creates ghost nodes; local shape invariants of the list operations; type-level witnesses with error codes.',
+        'decides': 'no unreviewed overflow / panic / unsafe site; list operations guarded; frees only through owner roles; identity-guarded removal; '
+                   'type-level exclusion of data races and aliasing',
+        'does_not_decide': 'well-formedness of the intrusive list for all operation sequences (pointer algebra), anything a sanitizer would see at run time; '
+                           'table lines of class ASSUMPTION are listed, not proved',
+    },
     'C13': {
         'rules': [adm.rule_cmp_admit, adm.rule_flow_admit_sums, adm.rule_admission_outcomes, fx.rule_auth_sketch_record],
         'explanation': 'Path-sensitive summaries of both admission scans and both insert handlers: the decision is exactly '
@@ -37,7 +51,7 @@ PROPERTIES = {
         'does_not_decide': 'the numeric bound itself (run-time weights), the +1 per inserting thread term',
     },
     'C17': {
-        'rules': [cfg.rule_flow_config_names, cfg.rule_build_validate, cfg.rule_default_consts, cfg.rule_initcap_sink],
+        'rules': [cfg.rule_flow_config_names, cfg.rule_build_validate, cfg.rule_default_consts, cfg.rule_initcap_sink, ty.rule_type_policy],
         'explanation': 'Every configuration wire is followed by name through the type-checked program: builder setters change exactly their '
                        'own field; build* validate (ttl, tti) before constructing; each argument / struct field / getter named X receives the '
                        'value named X; the panic condition is exactly `d <= Duration::from_secs(1000*365*24*3600)` false; defaults are the '
@@ -94,7 +108,7 @@ PROPERTIES = {
         'does_not_decide': 'per-schedule visibility between an invalidating thread and readers',
     },
     'C16': {
-        'rules': [live.rule_guard_live_all, must.rule_update_resets],
+        'rules': [live.rule_guard_live_all, must.rule_update_resets, ty.rule_type_iter],
         'explanation': 'Both Iter::next implementations yield an item only on paths where the full liveness predicate of that very '
                        'item is false.',
         'decides': 'iteration never yields an expired / invalidated entry; the filter is exactly the liveness predicate',
